@@ -4,6 +4,7 @@ package conf
 // As a general rule of thumb, if an error message only has one parameter, the parameter name will be the same as the error code
 import (
 	"fmt"
+	"reflect"
 	"strings"
 
 	"github.com/Oudwins/zog/i18n/en"
@@ -40,10 +41,22 @@ func NewDefaultFormatter(m zconst.LangMap) p.IssueFmtFunc {
 		for k, v := range e.Params {
 			pairs = append(pairs, "{{"+k+"}}", fmt.Sprintf("%v", v))
 		}
-		pairs = append(pairs, valuePlaceholder, fmt.Sprintf("%v", e.Value))
+		pairs = append(pairs, valuePlaceholder, fmt.Sprintf("%v", displayValue(e.Value)))
 		e.SetMessage(strings.NewReplacer(pairs...).Replace(msg))
 	}
 
+}
+
+// the value of an issue raised by a built-in test is the pointer to the destination: a message shows what it points to, not its address
+func displayValue(v any) any {
+	rv := reflect.ValueOf(v)
+	for rv.Kind() == reflect.Pointer && !rv.IsNil() {
+		rv = rv.Elem()
+	}
+	if !rv.IsValid() || !rv.CanInterface() {
+		return v
+	}
+	return rv.Interface()
 }
 
 // Default Issue Message formatter it uses the errors above. Please override the `IssueFormatter` variable instead of this one to customize the error messages for all zog schemas
